@@ -230,6 +230,11 @@ def apply_fault(df: Any, u: dict, ids: list[int], fault: dict) -> Any:
             df[v] = pd.Series(vals, index=df.index, dtype=object)
         elif dt == "str":
             df[v] = pd.Series(vals, index=df.index, dtype="str")
+        elif dt == "arrow_dict":
+            import pyarrow
+
+            arr = pyarrow.array(vals).dictionary_encode()
+            df[v] = pd.Series(pd.arrays.ArrowExtensionArray(arr), index=df.index)  # dictionary-encoded Arrow text (e.g. from parquet)
         elif dt == "arrow_str":
             import pyarrow
 
@@ -238,7 +243,10 @@ def apply_fault(df: Any, u: dict, ids: list[int], fault: dict) -> Any:
             df[v] = pd.Series(pd.Categorical(vals), index=df.index)
     elif kind == "level_alias":
         # same truth values, other type: True/False arrive as 1/0 (equal under ==, but not the recorded levels)
-        df[v] = pd.Series(df[v].to_numpy().astype("int64" if fault.get("as") != "float" else "float64"), index=df.index)
+        if fault.get("as") == "bool":
+            df[v] = pd.Series(df[v].to_numpy() > 0, index=df.index)  # whole numbers arrive as booleans (True == 1, but not the level 1)
+        else:
+            df[v] = pd.Series(df[v].to_numpy().astype("int64" if fault.get("as") != "float" else "float64"), index=df.index)
     elif kind == "level_gain":
         new = fault.get("level", "NEW")
         rows = fault.get("rows")
@@ -379,6 +387,13 @@ def categorical_atoms(rng: random.Random, v: str, levels: list[str], *, rich: bo
         a.update(expr=n, cls="lookup")
     elif kind == "C":
         c = rng.choice(CONTRASTS).format(base=repr(levels[rng.randrange(len(levels))]))
+        if rng.random() < 0.12 and len(levels) >= 2:
+            L = len(levels)
+            rows = [[1 if j == i else 0 for j in range(L - 1)] for i in range(L - 1)] + [[-1] * (L - 1)]
+            if rng.random() < 0.5:
+                c = f", contr.custom({rows!r})"
+            else:
+                c = ", {" + ", ".join(f"'c{j}': {[r[j] for r in rows]!r}" for j in range(L - 1)) + "}"
         a.update(expr=f"C({n}{c})")
     elif kind == "Clevels":
         lv = levels[:]
@@ -480,6 +495,10 @@ def gen_formula(rng: random.Random, u: dict, *, rich: bool = True, structured_p:
 
 
 def spec_to_python(spec: Any) -> Any:
+    if isinstance(spec, dict) and "__termset__" in spec:
+        from formulaic import Formula
+
+        return set(Formula(spec["__termset__"]))  # a builtin set of Term objects
     if isinstance(spec, dict) and "__set__" in spec:
         return set(spec["__set__"])  # a builtin set is part of the public FormulaSpec alias
     if isinstance(spec, dict) and "__tuple__" in spec:
